@@ -374,18 +374,23 @@ impl Client {
         if r.tr == 0 {
             return Ok(Opened::Conn(Conn::H1(Box::new(self.tcp(false).await?))));
         }
-        let tcp = self.tcp(true).await?;
         let cfg = if r.tr == 1 { tlsc::tls().h1.clone() } else { tlsc::tls().h2.clone() };
         // a client that connects to an IP address sends no SNI
         let name = match &r.sni {
             Some(n) => rustls::pki_types::ServerName::try_from(n.clone()).map_err(|_| Trouble("OOD".into()))?,
             None => rustls::pki_types::ServerName::IpAddress(std::net::IpAddr::from([127, 0, 0, 1]).into()),
         };
-        let s = match tokio::time::timeout(T, tokio_rustls::TlsConnector::from(cfg).connect(name, tcp)).await {
-            Err(_) => return Err(Trouble("timeout: TLS handshake".into())),
-            // the server refused (alert, or it closed the connection)
-            Ok(Err(_)) => return Ok(Opened::NoTls),
-            Ok(Ok(s)) => s,
+        // the server refuses the handshake (alert, or it closes the connection) deterministically: a handshake that fails is
+        // tried once more on a fresh connection, so that a connection lost under load is not taken for a refusal
+        let mut attempt = 0;
+        let s = loop {
+            let tcp = self.tcp(true).await?;
+            match tokio::time::timeout(T, tokio_rustls::TlsConnector::from(cfg.clone()).connect(name.clone(), tcp)).await {
+                Err(_) => return Err(Trouble("timeout: TLS handshake".into())),
+                Ok(Err(_)) if attempt == 0 => attempt += 1,
+                Ok(Err(_)) => return Ok(Opened::NoTls),
+                Ok(Ok(s)) => break s,
+            }
         };
         let want: &[u8] = if r.tr == 1 { b"http/1.1" } else { b"h2" };
         if s.get_ref().1.alpn_protocol() != Some(want) {
